@@ -109,10 +109,14 @@ class ResizableFile(object):
         size = len(values)
         currSize = self.__mm.size()
         if offset + size > self.__mm.size():
+            # grow until the data fits (a record may be larger than the whole file so far)
+            newSize = int(self.__mm.size() * self.__resizeFactor)
+            while offset + size > newSize:
+                newSize = int(newSize * self.__resizeFactor)
             try:
-                self.__mm.resize(int(self.__mm.size() * self.__resizeFactor))
+                self.__mm.resize(newSize)
             except SystemError:
-                self.__extand(int(self.__mm.size() * self.__resizeFactor) - currSize)
+                self.__extand(newSize - currSize)
         self.__mm[offset:offset + size] = values
 
     def read(self, offset, size):
